@@ -25,10 +25,18 @@ class ObjRef(Model):
         return SInt(z3.Select(st.heap[('field', name)], to_int(self.oid)))
 
 
-class Rep:
-    """[x] * n with symbolic n"""
-    def __init__(self, elem, count):
-        self.elem, self.count = elem, count
+class Rep(Model):
+    """[x] * n with symbolic n, optionally followed by values appended afterwards"""
+    def __init__(self, elem, count, tail=()):
+        self.elem, self.count, self.tail = elem, count, tuple(tail)
+
+    def m_getattr(self, ex, st, name, node):
+        if name == 'append':
+            def append(ex_, st_, args, node_):
+                # a local list object: the name bound to it sees the appended value (the model object is updated in place)
+                self.tail = self.tail + (args[0],)
+            return Method(append)
+        raise NotInSubset(f'list.{name} on a repeated list')
 
 
 class Method(Model):
@@ -83,14 +91,18 @@ class ListObj(Model):
     def extend(self, ex, st, args, node):
         r = args[0]
         if not isinstance(r, Rep) or r.elem is not None:
-            raise NotInSubset('extend with something other than [None] * n')
+            raise NotInSubset('extend with something other than [None] * n (+ appended values)')
         c = to_int(r.count)
         ex.prove(st, 'list repetition count is not negative here', c >= 0, node)
         n = to_int(self.length(st))
         j = z3.Int('j!ext')
         a = self.arr(st)
-        st.heap[(self.name, 'arr')] = z3.Lambda([j], z3.If(j < n, z3.Select(a, j), z3.IntVal(NONE_ID)))
-        st.heap[(self.name, 'len')] = self.length(st) + SInt(c)
+        new = z3.Lambda([j], z3.If(j < n, z3.Select(a, j), z3.IntVal(NONE_ID)))
+        for k, v in enumerate(r.tail):
+            vid = to_int(v.oid) if isinstance(v, ObjRef) else (z3.IntVal(NONE_ID) if v is None else to_int(v))
+            new = z3.Store(new, n + c + k, vid)
+        st.heap[(self.name, 'arr')] = new
+        st.heap[(self.name, 'len')] = self.length(st) + SInt(c) + len(r.tail)
 
     def m_getattr(self, ex, st, name, node):
         if name == 'pop':
